@@ -64,7 +64,7 @@ def seeded():
         rows.append(m)
     if not rows:
         return '*No seeded change has been confirmed yet.*'
-    out = ['Three rounds, one change per property per round (60 in all). Each change was written by a fresh sub-agent that saw only the '
+    out = [f'Three rounds, one change per property per round (60), and a fourth, partial round of {len(rows)-60} more run by a later session with the checks as they stood (no strengthening was needed: each was reported on the first run with a concrete input) — {len(rows)} in all. Each change was written by a fresh sub-agent that saw only the '
            'property text and its own scratch worktree of /repo (rounds 2 and 3 were also told which changes had already been used, so that '
            'they picked a different function and clause), confirmed by the integrator in that worktree (`tools_seed.sh`: the existing suite still '
            'passes; the demo fails with the change and passes without it; the C extension is rebuilt around the demo when the C source changed), '
@@ -74,7 +74,7 @@ def seeded():
            'was run with `git -C /repo apply <patch>` … `git -C /repo checkout -- .` on /repo itself. Where a change was missed, or reported '
            'without a concrete input, the check was strengthened and the row says so.\n',
            '| seeded id | breaks | needs, in order to manifest | caught by | how |', '|---|---|---|---|---|']
-    out.insert(1, 'Final pass (all 60 changes against the final checks, `seeded/FINAL_PASS.txt`): 60/60 reported with exit 1 and at least one VIOLATION line '
+    out.insert(1, 'Final pass of rounds 1–3 (all 60 changes against the final checks, `seeded/FINAL_PASS.txt`): 60/60 reported with exit 1 and at least one VIOLATION line '
                   'carrying a concrete failing input (none with `no-failing-input-found`); 16 of them were also run on /repo itself '
                   '(`git -C /repo apply` … `git -C /repo checkout -- .`) with the same outcome.\n')
     for m in rows:
